@@ -116,6 +116,11 @@ Definition dispatch_coder (fn : Z) (args : list (list Z)) : option (list (list Z
               (e <- encode bits (chunk4 acc) (a1 v) (boolarg faster) 0 (opt_table sh) (natarg fuel) ;;
                d <- decode (fst e) (Z.of_nat (length bits)) (chunk4 acc) (a1 v) (boolarg faster) None (opt_table sh) ;;
                Ok (fst e, d)))
+  | 50, [bits; acc; v; faster; vtl; sh; fuel] =>   (* composite: encode (with check), then decode with the check *)
+      Some (out_result (fun r => r)
+              (e <- encode bits (chunk4 acc) (a1 v) (boolarg faster) (a1 vtl) (opt_table sh) (natarg fuel) ;;
+               d <- decode (fst e) (Z.of_nat (length bits)) (chunk4 acc) (a1 v) (boolarg faster) (snd e) (opt_table sh) ;;
+               Ok [fst e; enc_opt_string (snd e); d]))
   | _, _ => None
   end.
 
@@ -141,6 +146,21 @@ Definition dispatch_graph (fn : Z) (args : list (list Z)) : option (list (list Z
   | 39, [k; mask] => Some (out_result (fun a => [concat a]) (connect_valid_graph (natarg k) mask))
   | 40, [k; mask; t] =>
       Some (out_result (fun r => [fst r; concat (snd r)]) (connect_coding_graph (natarg k) mask (a1 t)))
+  | 51, [k; mask; t] =>    (* composite: graph generation, and the latter-map trimming of the valid graph *)
+      let main := match connect_coding_graph (natarg k) mask (a1 t) with
+                  | Ok (v, acc) => Ok [[1]; v; concat acc]
+                  | Raise ValueError => Ok [[0]; []; []]
+                  | Raise e => Raise e
+                  | OutOfFuel => OutOfFuel
+                  end in
+      let second := match connect_valid_graph (natarg k) mask with
+                    | Ok valid => r <- latter_map_to_accessor (accessor_to_latter_map valid) (natarg k) (Some (a1 t)) ;;
+                                  Ok [concat r]
+                    | Raise ValueError => Ok [[]]
+                    | Raise e => Raise e
+                    | OutOfFuel => OutOfFuel
+                    end in
+      Some (out_result (fun r => r) (a <- main ;; b <- second ;; Ok (a ++ b)))
   | 41, [h; ms; only_last; s] => Some [[0]; [b2z (valid (dec_cfg h ms) (boolarg only_last) s)]]
   | 42, [h; ms] => Some [[0]; [b2z (ctor_accepts (dec_cfg h ms))]]
   | 43, [k; h; ms] => Some (out_result (fun l => [l]) (find_vertices (natarg k) (valid (dec_cfg h ms) true)))
